@@ -1,11 +1,24 @@
+def _g(d, pkg, extra=None):
+    return dict(dir=d, pkgname=pkg, files=["%s/c18_rig_test.go" % (d.split("/")[-1] or "root"), "%s/c18_test.go" % (d.split("/")[-1] or "root")],
+                test="TestVerifC18", race=True, n_quick=1, n_thorough=1, shards_quick=1, shards_thorough=1,
+                timeout_quick=600, timeout_thorough=3000, v=True)
+
 SPEC = {
-    "go": [],
+    "go": [
+        _g("", "ipfscluster"),
+        _g("pintracker/optracker", "optracker"),
+        _g("pintracker/stateless", "stateless"),
+        _g("monitor/metrics", "metrics"),
+        _g("informer/disk", "disk"),
+        _g("informer/numpin", "numpin"),
+        _g("consensus/crdt", "crdt"),
+    ],
     "gen": ["Locksets"],
     "force": ["Gen/Locksets.v", "Proofs/C18_Table.v"],
     "diag": True,
     "shrink": False,
     "rule": "",
-    "codes": {},
+    "codes": {2: "spec_okb (C18: a returned slice is torn: empty, duplicated, out-of-order or over-long entries)"},
     "trusted": [],
     "level_text": "",
     "level_note": "",
